@@ -6,6 +6,8 @@
 package vsync
 
 import (
+	"fmt"
+	"sort"
 	"sync"
 
 	"verif/vs"
@@ -263,11 +265,134 @@ func (c *Cond) Broadcast() {
 	c.waiters = nil
 }
 
-// Pass-through for the remaining API used by programs that do not need control.
-type (
-	Map  = sync.Map
-	Pool = sync.Pool
-)
+// Pool replaces sync.Pool with a deterministic free list (LIFO, nothing is ever dropped by the
+// garbage collector): reuse of a pooled object is then a deterministic function of the history,
+// which is what makes state that leaks through a pooled object observable.
+type Pool struct {
+	New   func() any
+	items []any
+	m     sync.Mutex
+}
+
+func (p *Pool) Get() any {
+	p.m.Lock()
+	defer p.m.Unlock()
+	if n := len(p.items); n > 0 {
+		x := p.items[n-1]
+		p.items = p.items[:n-1]
+		return x
+	}
+	if p.New != nil {
+		return p.New()
+	}
+	return nil
+}
+
+func (p *Pool) Put(x any) {
+	if x == nil {
+		return
+	}
+	p.m.Lock()
+	p.items = append(p.items, x)
+	p.m.Unlock()
+}
+
+// Map replaces sync.Map: a plain map behind a (shimmed) mutex, so every operation is a scheduling point.
+type Map struct {
+	mu Mutex
+	m  map[any]any
+}
+
+func (m *Map) Load(k any) (any, bool) {
+	m.mu.Lock()
+	defer m.mu.Unlock()
+	v, ok := m.m[k]
+	return v, ok
+}
+
+func (m *Map) Store(k, v any) {
+	m.mu.Lock()
+	defer m.mu.Unlock()
+	if m.m == nil {
+		m.m = map[any]any{}
+	}
+	m.m[k] = v
+}
+
+func (m *Map) LoadOrStore(k, v any) (any, bool) {
+	m.mu.Lock()
+	defer m.mu.Unlock()
+	if old, ok := m.m[k]; ok {
+		return old, true
+	}
+	if m.m == nil {
+		m.m = map[any]any{}
+	}
+	m.m[k] = v
+	return v, false
+}
+
+func (m *Map) LoadAndDelete(k any) (any, bool) {
+	m.mu.Lock()
+	defer m.mu.Unlock()
+	v, ok := m.m[k]
+	delete(m.m, k)
+	return v, ok
+}
+
+func (m *Map) Delete(k any) { m.LoadAndDelete(k) }
+
+func (m *Map) Swap(k, v any) (any, bool) {
+	m.mu.Lock()
+	defer m.mu.Unlock()
+	old, ok := m.m[k]
+	if m.m == nil {
+		m.m = map[any]any{}
+	}
+	m.m[k] = v
+	return old, ok
+}
+
+func (m *Map) CompareAndSwap(k, old, new any) bool {
+	m.mu.Lock()
+	defer m.mu.Unlock()
+	if cur, ok := m.m[k]; ok && cur == old {
+		m.m[k] = new
+		return true
+	}
+	return false
+}
+
+func (m *Map) CompareAndDelete(k, old any) bool {
+	m.mu.Lock()
+	defer m.mu.Unlock()
+	if cur, ok := m.m[k]; ok && cur == old {
+		delete(m.m, k)
+		return true
+	}
+	return false
+}
+
+func (m *Map) Range(f func(k, v any) bool) {
+	m.mu.Lock()
+	keys := make([]any, 0, len(m.m))
+	for k := range m.m {
+		keys = append(keys, k)
+	}
+	m.mu.Unlock()
+	sort.Slice(keys, func(i, j int) bool { return fmt.Sprint(keys[i]) < fmt.Sprint(keys[j]) })
+	for _, k := range keys {
+		if v, ok := m.Load(k); ok && !f(k, v) {
+			return
+		}
+	}
+}
+
+func (m *Map) Clear() {
+	m.mu.Lock()
+	m.m = nil
+	m.mu.Unlock()
+}
 
 func OnceFunc(f func()) func() {
 	var o Once
